@@ -8,6 +8,7 @@ import (
 	"runtime/debug"
 	"sync"
 
+	segment "github.com/blevesearch/scorch_segment_api/v2"
 	zap "github.com/blevesearch/zapx/v16"
 
 	"zverif/sx"
@@ -234,6 +235,13 @@ func checkC04(c *ctx) {
 			return
 		}
 	}
+	// one path used for one segment after the other (a file name recycled by the caller): what is
+	// opened must be what was persisted last - also when the two files have the same length and the
+	// same footer offsets (a field renamed to a name of equal length; a text moved to another field)
+	if bad := samePathGenerations(c); bad != "" {
+		c.Violation("C04 "+bad, false)
+		return
+	}
 	// different segments persisted at the same time (an indexer flushes and merges concurrently):
 	// every image must equal the image the same segment produces alone
 	zap.LegacyChunkMode = saved
@@ -376,4 +384,62 @@ func tail(b []byte, n int) []byte {
 		return b
 	}
 	return b[len(b)-n:]
+}
+
+func samePathGenerations(c *ctx) string {
+	mk := func(f1, f2, v1, v2 string) zh.Batch {
+		var b zh.Batch
+		for d := 0; d < 3; d++ {
+			b = append(b, zh.Doc{Fields: []zh.Field{zh.IDField(fmt.Sprintf("g%02d", d)),
+				{Name: f1, Typ: 't', Stored: true, DV: true, Val: []byte(v1), Len: 1, Toks: []zh.Tok{{Term: v1, Freq: 1}}},
+				{Name: f2, Typ: 't', Stored: true, Val: []byte(v2), Len: 1, Toks: []zh.Tok{{Term: v2, Freq: 1}}}}})
+		}
+		return b
+	}
+	gens := [][]zh.Batch{
+		{mk("name", "zeta", "alpha", "omega"), mk("nick", "zeta", "alpha", "omega"), mk("name", "zeta", "alpha", "omega")},
+		{mk("aaaa", "bbbb", "hello", "world"), mk("aaaa", "bbbb", "world", "hello"), mk("bbbb", "aaaa", "hello", "world")},
+	}
+	for gi, gs := range gens {
+		path := zh.TmpPath(fmt.Sprintf("c04same%d", gi))
+		for round := 0; round < 2; round++ {
+			for bi, b := range gs {
+				sb, _, spec, err := buildObs(c, b, 1026)
+				must(err)
+				if err := zap.PersistSegmentBase(sb, path); err != nil {
+					os.Remove(path)
+					return "Persist failed: " + err.Error()
+				}
+				what := fmt.Sprintf("path used for one segment after the other (each opened, read and closed before the next is persisted; the files have equal lengths); generation %d of family %d, round %d", bi, gi, round)
+				var seg segment.Segment
+				var oerr error
+				func() {
+					defer func() {
+						if r := recover(); r != nil {
+							oerr = fmt.Errorf("PANIC %v", r)
+						}
+					}()
+					seg, oerr = zh.Plugin.Open(path)
+				}()
+				if oerr != nil {
+					os.Remove(path)
+					return what + ": Open: " + oerr.Error()
+				}
+				cont, err := zh.Dump(seg)
+				seg.Close()
+				if err != nil {
+					os.Remove(path)
+					return what + ": the opened segment cannot be read: " + err.Error()
+				}
+				if d := partsDiffer(cont.Sx(), spec, allParts); len(d) > 0 {
+					os.Remove(path)
+					return what + ": the opened segment differs from the batch persisted last in " + fmt.Sprint(d) + "\n" + describeDiff(cont.Sx(), spec, allParts)
+				}
+				sb.Close()
+				c.Count("same_path_generations")
+			}
+		}
+		os.Remove(path)
+	}
+	return ""
 }
